@@ -396,6 +396,9 @@ func genInstance(t *rapid.T, w *mWorld) *fakeconsul.Instance {
 	node := rapid.SampledFrom([]string{"node1", "node2"}).Draw(t, "node")
 	name := rapid.SampledFrom([]string{"web", "api", "db"}).Draw(t, "name")
 	id := fmt.Sprintf("%s-%d", name, rapid.IntRange(1, 2).Draw(t, "idn"))
+	if rapid.IntRange(0, 3).Draw(t, "id-that-extends-another-id") == 0 {
+		id = name + "-1-canary" // an id that starts with the id of another instance (web-1, web-1-canary)
+	}
 	in := &fakeconsul.Instance{Node: node, NodeAddr: map[string]string{"node1": "10.0.1.1", "node2": "10.0.2.2"}[node], ID: id, Name: name,
 		Addr: rapid.SampledFrom([]string{"", "10.5.5.5", "10.6.6.6", "2001:db8::17"}).Draw(t, "addr"), Port: rapid.IntRange(1000, 1005).Draw(t, "port")}
 	n := rapid.IntRange(0, 3).Draw(t, "ntags")
@@ -429,7 +432,9 @@ func (w *mWorld) ensureNode(fc *fakeconsul.Server, in *fakeconsul.Instance) {
 func TestC01Pipeline(t *testing.T) {
 	p := startPipeline(t)
 	hx.Check(t, hx.Scale(60, 1500), func(t *rapid.T) {
-		runHistory(t, p, false)
+		// with odd registrations coming and going: what cannot be expressed as a route is left out,
+		// everything else keeps following the registry
+		runHistory(t, p, true)
 	})
 }
 
